@@ -383,6 +383,21 @@ func c06Observe(e Ev, pmt psi.PMT, err error) {
 			pids = append(pids, p)
 		}
 		e["pids"] = pids
+	}, func() {
+		// the existence query for every PID of the table and two others (asked before or after the other getters, by ord)
+		ex := [][]int{}
+		qs := []int{0, 8191}
+		for _, p := range pmt.Pids() {
+			qs = append(qs, p, (p+1)%8192)
+		}
+		for _, q := range qs {
+			v := 0
+			if pmt.PIDExists(q) {
+				v = 1
+			}
+			ex = append(ex, []int{q, v})
+		}
+		e["exists"] = ex
 	}, func() { e["version"] = int(pmt.VersionNumber()) }, func() { e["cni"] = pmt.CurrentNextIndicator() })
 }
 
